@@ -92,6 +92,7 @@ type verifWorld struct {
 	users    []verifUser
 	shots    []*verifShot
 	onTar    func(username string, args []string) *exec.Cmd
+	onLookup func(name string)
 }
 
 func verifHarnessFail(format string, args ...interface{}) {
@@ -180,6 +181,9 @@ func verifRunC32(c *verifsim.Ctx) {
 }
 
 func (w *verifWorld) lookup(name string) (*user.User, error) {
+	if w.onLookup != nil {
+		w.onLookup(name)
+	}
 	for _, u := range w.users {
 		if u.name == name {
 			return &user.User{Uid: "0", Gid: "0", Username: u.name, Name: u.name, HomeDir: u.home}, nil
@@ -853,23 +857,35 @@ func (w *verifWorld) opRestore() {
 	if fault >= 4 && len(entries) > 0 {
 		faultAt = c.Draw("fault-at", len(entries))
 	}
-	// Archives that Restore gives up on before it gets to tar (data directory
-	// is not a directory, archive not in the file) cannot be observed through
-	// the tar seam; the order is drawn over the others.
-	var visible []string
-	for _, e := range entries {
-		if n := before[e.parentRel]; n != nil && n.kind != 'd' {
-			continue
+	// Restore walks a Go map. The order in which it takes the archives it
+	// has to deal with (the system archive and those of the requested users)
+	// is drawn from the tape; the call is observed through the seams it
+	// passes (context checks, user lookup, log function, tar) and abandoned
+	// and repeated from a rolled-back scratch root whenever the real order
+	// deviates. Archives of users that were not asked for and archives with
+	// unknown names have no effect and cannot fail, so their place is free.
+	var active []string
+	for _, k := range keys {
+		switch {
+		case k == "archive.tgz":
+			active = append(active, "root")
+		case strings.HasPrefix(k, "user/") && strings.HasSuffix(k, ".tgz"):
+			if name := strings.TrimSuffix(strings.TrimPrefix(k, "user/"), ".tgz"); wanted(name) {
+				active = append(active, name)
+			}
 		}
-		if !truthOK || truth[e.entry] == nil || !truth[e.entry].present {
-			continue
-		}
-		visible = append(visible, e.username)
 	}
-	order := make([]string, len(visible))
-	perm := c.Perm("archive-order", len(visible))
-	for i, p := range perm {
-		order[i] = visible[p]
+	order := make([]string, len(active))
+	for i, p := range c.Perm("archive-order", len(active)) {
+		order[i] = active[p]
+	}
+	isActive := func(name string) bool {
+		for _, o := range order {
+			if o == name {
+				return true
+			}
+		}
+		return false
 	}
 	if len(entries) >= 2 {
 		c.Count("probe:restore-several-archives")
@@ -877,35 +893,53 @@ func (w *verifWorld) opRestore() {
 
 	var rs *backend.RestoreState
 	var rerr error
-	var nlog, tarCalls int
+	var tarCalls int
 	fired := ""
 	attempts := 0
 	for {
 		attempts++
-		ctx, cancel := context.WithCancel(context.Background())
+		if attempts > 2000 {
+			verifHarnessFail("Restore never used archive order %v", order)
+		}
+		base, cancel := context.WithCancel(context.Background())
 		if fault == 3 {
 			cancel()
 			fired = "context-already-cancelled"
 		}
-		tarCalls, nlog = 0, 0
-		forcing := attempts <= 80
-		if !forcing {
-			// something kept Restore from ever using the drawn order; take
-			// whatever order comes (the verdicts do not depend on it)
-			c.Count("restore-order-not-forced")
+		tarCalls = 0
+		pos := 0             // next archive of order expected to start
+		afterTar := false    // the next context check is RunWithContext's
+		iterOpen := false    // a loop iteration has started ...
+		iterEvent := false   // ... and has identified itself
+		iterCancelled := false
+		expect := func(name string) {
+			if !isActive(name) {
+				return
+			}
+			if pos < len(order) && order[pos] == name {
+				pos++
+				return
+			}
+			panic(verifRetry{})
+		}
+		ctx := &verifRestoreCtx{Context: base, onErr: func(e error) {
+			if afterTar {
+				afterTar = false
+				return
+			}
+			iterOpen, iterEvent, iterCancelled = true, false, e != nil
+		}}
+		w.onLookup = func(name string) {
+			iterEvent = true
+			expect(name)
 		}
 		w.onTar = func(username string, args []string) *exec.Cmd {
 			idx := tarCalls
 			tarCalls++
-			if forcing && idx < len(order) && order[idx] != username {
-				known := false
-				for _, o := range order {
-					known = known || o == username
-				}
-				if known {
-					panic(verifRetry{})
-				}
-				forcing = false
+			iterEvent = true
+			afterTar = true
+			if username == "root" {
+				expect("root")
 			}
 			if idx == faultAt && fault == 4 {
 				cancel()
@@ -916,6 +950,11 @@ func (w *verifWorld) opRestore() {
 				return exec.Command(filepath.Join(w.top, "no-such-dir", "tar"), args...)
 			}
 			return exec.Command("tar", args...)
+		}
+		logf := func(format string, args ...interface{}) {
+			if strings.Contains(format, "unknown entry") {
+				iterEvent = true
+			}
 		}
 		retry := false
 		func() {
@@ -928,10 +967,18 @@ func (w *verifWorld) opRestore() {
 					panic(p)
 				}
 			}()
-			rs, rerr = r.Restore(ctx, current, append([]string(nil), usernames...), func(string, ...interface{}) { nlog++ }, nil)
+			rs, rerr = r.Restore(ctx, current, append([]string(nil), usernames...), logf, nil)
 		}()
-		w.onTar = nil
+		w.onTar, w.onLookup = nil, nil
 		cancel()
+		if !retry && rerr != nil && iterOpen && !iterEvent && !iterCancelled {
+			// the archive that failed never identified itself: only the
+			// system archive can do that (its data directory is unusable or
+			// it is not in the file)
+			if pos >= len(order) || order[pos] != "root" {
+				retry = isActive("root")
+			}
+		}
 		if !retry {
 			break
 		}
@@ -1064,6 +1111,19 @@ func (w *verifWorld) opRestore() {
 	if len(outside) > 0 {
 		c.Violate("C32/restore-outside", "Restore changed files outside the snap's data directories: %s", verifDiffText(outside))
 	}
+}
+
+// verifRestoreCtx reports every Err() call (made by Restore at the start of
+// each archive and by RunWithContext, always on the calling goroutine).
+type verifRestoreCtx struct {
+	context.Context
+	onErr func(error)
+}
+
+func (x *verifRestoreCtx) Err() error {
+	e := x.Context.Err()
+	x.onErr(e)
+	return e
 }
 
 // verifCountCtx cancels itself at the n-th Done() (resp. Err()) call: a
